@@ -289,7 +289,6 @@ Section BatchingProofs.
   Notation message_len := (message_len A elen mlen).
   Notation sendable := (sendable A elen mlen mm).
   Notation sent_batches := (sent_batches A dlen elen mlen mb mm).
-  Notation request_rounds := (request_rounds A dlen elen mlen mb mm).
 
   Definition dsum (b : list A) : N := sum (map dlen b).
   Definition esum (b : list A) : N := sum (map elen b).
@@ -475,62 +474,6 @@ Section BatchingProofs.
         exact ET.
   Qed.
 
-  (* ---- the rounds of send_request ---- *)
-
-  Lemma request_rounds_partition :
-    forall fuel l, (length l < fuel)%nat -> concat (request_rounds fuel l) = filter fits l.
-  Proof.
-    induction fuel as [|f IH]; intros l Hl; [lia|].
-    cbn [Model.request_rounds].
-    destruct (drop_unfit_spec l) as (pre & H1 & H2 & H3).
-    destruct (take_batch 0 0 (drop_unfit l)) as [b r] eqn:ET.
-    pose proof (take_batch_spec _ _ _ _ _ ET) as (E1 & _ & _ & E4).
-    assert (Hl2 : filter fits l = b ++ filter fits r).
-    { rewrite H1, filter_app, H2, E1, filter_app, (filter_fits_all b E4). reflexivity. }
-    destruct r as [|x r].
-    - cbn [concat]. rewrite Hl2. cbn [filter]. reflexivity.
-    - cbn [concat]. rewrite IH; [symmetry; exact Hl2|].
-      (* progress: the head of drop_unfit l fits, so the batch is not empty *)
-      destruct (drop_unfit l) as [|a t] eqn:ED.
-      + cbn [Model.take_batch] in ET. inversion ET.
-      + pose proof (drop_unfit_head _ _ _ ED) as Hf.
-        destruct (take_batch_nonempty a t Hf) as (b0 & r0 & HN). rewrite HN in ET. inversion ET; subst.
-        assert (length (a :: t) = length ((a :: b0) ++ x :: r)) by (rewrite E1; reflexivity).
-        rewrite app_length in H. cbn [length] in *. lia.
-  Qed.
-
-  (* every round's message respects the limit when it carries something; an empty round can only
-     be the first one of an empty (or wholly unsendable) request or follow unsendable entries *)
-  Lemma request_rounds_bounds :
-    forall fuel l,
-      Forall (fun b => b <> [] -> dsum b <= mb /\ message_len b <= mm) (request_rounds fuel l).
-  Proof.
-    induction fuel as [|f IH]; intros l; cbn [Model.request_rounds]; [constructor|].
-    destruct (take_batch 0 0 (drop_unfit l)) as [b r] eqn:ET.
-    pose proof (take_batch_spec _ _ _ _ _ ET) as (_ & E2 & E3 & _).
-    constructor.
-    - intros Hb. split; [specialize (E2 ltac:(lia)); lia|].
-      unfold Model.message_len. specialize (E3 Hb). unfold esum in E3.
-      replace (0 + sum (map elen b)) with (sum (map elen b)) in E3 by lia. exact E3.
-    - destruct r; [constructor|apply IH].
-  Qed.
-
-  (* when every entry can be sent, there is exactly one round per non-empty batch, and a single
-     (empty) message for an empty request *)
-  Lemma request_rounds_nonempty :
-    forall fuel l, Forall (fun a => fits a = true) l -> l <> [] ->
-      Forall (fun b => b <> []) (request_rounds fuel l).
-  Proof.
-    induction fuel as [|f IH]; intros l Hall Hne; cbn [Model.request_rounds]; [constructor|].
-    destruct l as [|a t]; [congruence|]. inversion Hall; subst.
-    cbn [Model.drop_unfit]. rewrite H1.
-    destruct (take_batch_nonempty a t H1) as (b0 & r0 & HN). rewrite HN.
-    constructor; [discriminate|].
-    destruct r0 as [|x r0]; [constructor|]. apply IH; [|discriminate].
-    apply take_batch_spec in HN. destruct HN as (E1 & _).
-    assert (Forall (fun a0 => fits a0 = true) ((a :: b0) ++ x :: r0)) by (rewrite <- E1; exact Hall).
-    apply Forall_app in H. tauto.
-  Qed.
 End BatchingProofs.
 
 (* ------------------------------------------------------------------ the shipped constants *)
@@ -1176,39 +1119,17 @@ Proof.
   - apply write_msgs_spec in H. destruct H as (tail & E & _). exists tail. exact E.
 Qed.
 
-(* ------------------------------------------------------------------ requests: split like responses (F-C20c) *)
+(* ------------------------------------------------------------------ requests: one message, whatever its size *)
 
-Notation want_fits mm := (fits (cid * want_type) (fun _ => 0) sw_elen req_mlen 0 mm).
+(* send_request builds ONE message with all wants *)
+Lemma request_single_message :
+  forall mb mm cids,
+    action_msgs mb mm (ARequest cids) = [ORequest cids] /\ omsg_len (ORequest cids) = request_len cids.
+Proof. intros. split; reflexivity. Qed.
 
-Lemma request_partition :
-  forall mm cids, concat (send_request_msgs mm cids) = filter (want_fits mm) cids.
-Proof.
-  intros mm cids. unfold send_request_msgs.
-  apply request_rounds_partition; [exact req_mlen_mono|lia].
-Qed.
-
-(* a message that carries wants respects the limit *)
-Lemma request_bounds :
-  forall mm cids, Forall (fun b => b <> [] -> request_len b <= mm) (send_request_msgs mm cids).
-Proof.
-  intros mm cids. unfold send_request_msgs, request_len.
-  pose proof (request_rounds_bounds (cid * want_type) (fun _ => 0) sw_elen req_mlen 0 mm req_mlen_mono
-                (S (length cids)) cids) as H.
-  eapply Forall_impl; [|exact H]. cbn beta. intros b Hb Hne. apply Hb in Hne. tauto.
-Qed.
-
-(* an empty request is one message with an empty wantlist *)
-Lemma request_empty : forall mm, send_request_msgs mm [] = [[]].
-Proof. reflexivity. Qed.
-
+(* an empty request is a message with an empty wantlist, two bytes *)
 Lemma request_empty_len : request_len [] = 2.
 Proof. reflexivity. Qed.
-
-Lemma request_never_silent : forall mm cids, send_request_msgs mm cids <> [].
-Proof.
-  intros mm cids. unfold send_request_msgs. cbn [request_rounds].
-  destruct (take_batch _ _ _ _ _ _ _ _ _) as [b r]. discriminate.
-Qed.
 
 Lemma want_elen_le : forall cidlen t, want_elen cidlen t <= 26 + cidlen.
 Proof.
@@ -1218,64 +1139,19 @@ Proof.
     match goal with |- context [vlen (?a + ?b)] => pose proof (vlen_bounds (a + b)) end; lia.
 Qed.
 
-Lemma default_want_fits :
-  forall cw, (length (c_digest (fst cw)) <= 64)%nat ->
-    want_fits Consts.BITSWAP_MAX_MESSAGE_SIZE cw = true.
+Lemma sw_elen_le : forall cw, (length (c_digest (fst cw)) <= 64)%nat -> sw_elen cw <= 130.
 Proof.
-  intros cw H. unfold fits, req_mlen, sw_elen.
-  pose proof (want_elen_le (N.of_nat (length (cid_to_bytes (fst cw)))) (want_code (snd cw))) as H1.
-  pose proof (cid_bytes_len_le (fst cw)) as H2.
-  match goal with |- context [vlen ?x] => pose proof (vlen_bounds x) as H3 end.
-  unfold Consts.BITSWAP_MAX_MESSAGE_SIZE in *. cbn [andb N.leb]. lia.
+  intros cw H. unfold sw_elen.
+  pose proof (want_elen_le (N.of_nat (length (cid_to_bytes (fst cw)))) (want_code (snd cw))).
+  pose proof (cid_bytes_len_le (fst cw)). lia.
 Qed.
 
-(* with the shipped limit every want (multihash of at most 64 bytes) is sent, once and in order,
-   and no message is empty unless the request is *)
-Lemma default_requests_all_sent :
-  forall cids, Forall (fun cw => (length (c_digest (fst cw)) <= 64)%nat) cids ->
-    concat (send_request_msgs Consts.BITSWAP_MAX_MESSAGE_SIZE cids) = cids.
+Lemma sum_le_const :
+  forall {X} (f : X -> N) k l, Forall (fun x => f x <= k) l -> sum (map f l) <= N.of_nat (length l) * k.
 Proof.
-  intros cids H. rewrite request_partition. apply filter_all_true.
-  eapply Forall_impl; [|exact H]. intros cw Hc. apply default_want_fits. exact Hc.
+  intros X f k l H. induction H as [|x l Hx _ IH]; [cbn; lia|].
+  cbn [map sum length]. lia.
 Qed.
-
-Lemma default_requests_nonempty :
-  forall cids, Forall (fun cw => (length (c_digest (fst cw)) <= 64)%nat) cids -> cids <> [] ->
-    Forall (fun b => b <> [] /\ request_len b <= Consts.BITSWAP_MAX_MESSAGE_SIZE)
-           (send_request_msgs Consts.BITSWAP_MAX_MESSAGE_SIZE cids).
-Proof.
-  intros cids H Hne.
-  pose proof (request_rounds_nonempty (cid * want_type) (fun _ => 0) sw_elen req_mlen 0
-                Consts.BITSWAP_MAX_MESSAGE_SIZE req_mlen_mono (S (length cids)) cids) as H1.
-  assert (Hall : Forall (fun a => want_fits Consts.BITSWAP_MAX_MESSAGE_SIZE a = true) cids).
-  { eapply Forall_impl; [|exact H]. intros cw Hc. apply default_want_fits. exact Hc. }
-  specialize (H1 Hall Hne). pose proof (request_bounds Consts.BITSWAP_MAX_MESSAGE_SIZE cids) as H2.
-  unfold send_request_msgs in *. rewrite Forall_forall in *. intros b Hb. split; [apply H1; exact Hb|].
-  apply H2; [exact Hb|apply H1; exact Hb].
-Qed.
-
-(* what the remote reports, message after message, is the request: splitting keeps the wantlist *)
-Lemma split_request_same_wants :
-  forall mm cids, Forall (fun cw => cid_wf (fst cw)) cids ->
-    flat_map (fun b => inbound_wants (request_entries b)) (send_request_msgs mm cids) =
-    filter (want_fits mm) cids.
-Proof.
-  intros mm cids H. rewrite <- request_partition.
-  assert (Hall : Forall (fun b => Forall (fun cw => cid_wf (fst cw)) b) (send_request_msgs mm cids)).
-  { apply Forall_forall. intros b Hb. apply Forall_forall. intros cw Hcw.
-    assert (Hin : In cw (concat (send_request_msgs mm cids))) by (apply in_concat; eauto).
-    rewrite request_partition in Hin. apply filter_In in Hin. destruct Hin as [Hin _].
-    rewrite Forall_forall in H. apply H. exact Hin. }
-  induction Hall as [|b l Hb _ IH]; [reflexivity|].
-  cbn [flat_map concat]. rewrite request_roundtrip by exact Hb. f_equal. exact IH.
-Qed.
-
-(* F-C20c, the defect repaired by the third `fix:` commit: one unsplit request (what the code sent
-   before) cannot respect any message size limit *)
-Definition tiny_want : cid * want_type := (mkCid 1 85 18 (repeat 0 32%nat), WBlock).
-
-Lemma tiny_want_elen : sw_elen tiny_want = 42.
-Proof. reflexivity. Qed.
 
 Lemma req_mlen_ge : forall s, s < req_mlen s.
 Proof. intros s. unfold req_mlen. pose proof (vlen_bounds s). lia. Qed.
@@ -1283,44 +1159,70 @@ Proof. intros s. unfold req_mlen. pose proof (vlen_bounds s). lia. Qed.
 Lemma req_mlen_le : forall s, req_mlen s <= 11 + s.
 Proof. intros s. unfold req_mlen. pose proof (vlen_bounds s). lia. Qed.
 
+(* with the shipped limit a request of up to 32 000 wants (multihashes of at most 64 bytes) is
+   within the limit, whatever the CIDs *)
+Lemma default_request_fits :
+  forall cids, Forall (fun cw => (length (c_digest (fst cw)) <= 64)%nat) cids ->
+    N.of_nat (length cids) <= 32000 -> request_len cids <= Consts.BITSWAP_MAX_MESSAGE_SIZE.
+Proof.
+  intros cids H Hn. unfold request_len, message_len.
+  assert (Hs : sum (map sw_elen cids) <= N.of_nat (length cids) * 130).
+  { apply sum_le_const. eapply Forall_impl; [|exact H]. intros cw Hc. apply sw_elen_le. exact Hc. }
+  pose proof (req_mlen_le (sum (map sw_elen cids))).
+  unfold Consts.BITSWAP_MAX_MESSAGE_SIZE. lia.
+Qed.
+
+(* OBSERVATION (outside the property text, which speaks of responses): the request is never split,
+   so for every limit there is a request — each want of which would fit a message — whose single
+   message is too long *)
+Definition tiny_want : cid * want_type := (mkCid 1 85 18 (repeat 0 32%nat), WBlock).
+
+Lemma tiny_want_elen : sw_elen tiny_want = 42.
+Proof. reflexivity. Qed.
+
 Lemma unsplit_request_insufficient :
   forall mm, 53 <= mm ->
     exists cids : list (cid * want_type),
-      Forall (fun cw => want_fits mm cw = true) cids /\ mm < request_len cids.
+      Forall (fun cw => req_mlen (sw_elen cw) <= mm) cids /\ mm < request_len cids.
 Proof.
   intros mm H. exists (repeat tiny_want (S (N.to_nat mm))). split.
   - apply Forall_forall. intros x Hx. apply repeat_spec in Hx. subst x.
-    unfold fits. rewrite tiny_want_elen. pose proof (req_mlen_le 42). cbn [andb N.leb]. lia.
+    rewrite tiny_want_elen. pose proof (req_mlen_le 42). lia.
   - unfold request_len, message_len. rewrite sum_repeat_gen, tiny_want_elen.
     pose proof (req_mlen_ge (N.of_nat (S (N.to_nat mm)) * 42)). lia.
 Qed.
 
-(* no message of a request is refused by the codec's size check (the limit admits the empty
-   message) *)
-Lemma request_msgs_within_limit :
-  forall mb mm cids, 2 <= mm -> Forall (fun m => omsg_len m <= mm) (action_msgs mb mm (ARequest cids)).
+(* such a request is refused by the codec's size check: send_request writes nothing and fails,
+   whatever the substream *)
+Lemma oversized_request_refused :
+  forall mb mm cids c, mm < request_len cids ->
+    write_msgs mm c (action_msgs mb mm (ARequest cids)) = ([], 0, c, false).
 Proof.
-  intros mb mm cids Hmm. cbn [action_msgs]. apply Forall_forall. intros m Hm.
-  apply in_map_iff in Hm. destruct Hm as (b & E & Hb). subst m. cbn [omsg_len].
-  destruct b as [|x b]; [rewrite request_empty_len; exact Hmm|].
-  pose proof (request_bounds mm cids) as HB. rewrite Forall_forall in HB. apply HB; [exact Hb|discriminate].
+  intros mb mm cids c H. cbn [action_msgs write_msgs omsg_len].
+  destruct (mm <? request_len cids) eqn:E; [reflexivity|apply N.ltb_ge in E; lia].
 Qed.
 
-Lemma action_msgs_within_limit :
-  forall mb mm a, 2 <= mm -> Forall (fun m => omsg_len m <= mm) (action_msgs mb mm a).
+(* a request within the limit goes out whole over a substream that takes it *)
+Lemma request_written_healthy :
+  forall mb mm cids, request_len cids <= mm ->
+    write_msgs mm None (action_msgs mb mm (ARequest cids)) = ([ORequest cids], 0, None, true).
 Proof.
-  intros mb mm [cids|ps bs] H; [apply request_msgs_within_limit; exact H|apply response_msgs_within_limit].
+  intros mb mm cids H. apply write_msgs_healthy. constructor; [exact H|constructor].
+Qed.
+
+(* a command that the codec will not refuse: a response always (batching), a request when its one
+   message is within the limit *)
+Definition action_ok (mm : N) (a : action) : Prop :=
+  match a with ARequest cids => request_len cids <= mm | AResponse _ _ => True end.
+
+Lemma action_msgs_within_limit :
+  forall mb mm a, action_ok mm a -> Forall (fun m => omsg_len m <= mm) (action_msgs mb mm a).
+Proof.
+  intros mb mm [cids|ps bs] H; [constructor; [exact H|constructor]|apply response_msgs_within_limit].
 Qed.
 
 Definition omsg_wants (m : omsg) : list (cid * want_type) := match m with ORequest l => l | _ => [] end.
 
-Lemma request_lossless :
-  forall mb mm cids,
-    flat_map omsg_wants (action_msgs mb mm (ARequest cids)) = filter (want_fits mm) cids.
-Proof.
-  intros mb mm cids. cbn [action_msgs].
-  rewrite flat_map_concat_map, map_map. cbn [omsg_wants]. rewrite map_id. apply request_partition.
-Qed.
 
 (* ------------------------------------------------------------------ the event loop *)
 
@@ -1348,12 +1250,28 @@ Proof.
 Qed.
 
 Lemma write_actions_healthy :
-  forall mb mm acts, 2 <= mm ->
+  forall mb mm acts, Forall (action_ok mm) acts ->
     write_actions mb mm None acts = (flat_map (action_msgs mb mm) acts, 0, None, true).
 Proof.
-  intros mb mm acts Hmm. induction acts as [|a t IH]; [reflexivity|].
-  cbn [write_actions flat_map]. rewrite write_msgs_healthy by (apply action_msgs_within_limit; exact Hmm).
+  intros mb mm acts Hok. induction Hok as [|a t Ha _ IH]; [reflexivity|].
+  cbn [write_actions flat_map]. rewrite write_msgs_healthy by (apply action_msgs_within_limit; exact Ha).
   rewrite IH. reflexivity.
+Qed.
+
+(* a queue flushed to a fresh substream stops at an oversized request: what stands before it is
+   written, the request and everything behind it is not *)
+Lemma write_actions_oversized :
+  forall mb mm c pre cids rest, Forall (action_ok mm) pre -> mm < request_len cids ->
+    write_actions mb mm None (pre ++ ARequest cids :: rest) =
+    (flat_map (action_msgs mb mm) pre, 0, None, false) /\
+    (pre = [] -> write_actions mb mm c (ARequest cids :: rest) = ([], 0, c, false)).
+Proof.
+  intros mb mm c pre cids rest Hok Hbig. split.
+  - induction Hok as [|a t Ha _ IH].
+    + cbn [app write_actions flat_map]. rewrite oversized_request_refused by exact Hbig. reflexivity.
+    + cbn [app write_actions flat_map].
+      rewrite write_msgs_healthy by (apply action_msgs_within_limit; exact Ha). rewrite IH. reflexivity.
+  - intros _. cbn [write_actions]. rewrite oversized_request_refused by exact Hbig. reflexivity.
 Qed.
 
 Section NodeProofs.
@@ -1575,7 +1493,7 @@ Section NodeProofs.
   (* the manager accepts the dial: the command is parked; when the connection is reported and the
      substream opens (healthy), everything parked is written, in order *)
   Lemma send_to_dialable_peer_parked :
-    forall s acts, 2 <= mm ->
+    forall s acts, Forall (action_ok mm) acts ->
       ps_conn s = 0 -> ps_pend s = [] -> ps_out s = None -> ps_dial s = false -> ps_opening s = false ->
       (ps_mgr s = 1 \/ ps_mgr s = 3) -> acts <> [] ->
       let '(s1, _, done) := run_peer s (map PSend acts ++ [PConnect; POutOpen None]) in
@@ -1583,21 +1501,22 @@ Section NodeProofs.
   Proof.
     intros [inb out pend opening conn dial mgr] acts Hmm Hc Hp Ho Hd Hop Hm Hne. cbn in *. subst.
     destruct acts as [|a acts]; [congruence|]. clear Hne.
-    assert (Hpark : forall l q, q <> [] ->
+    assert (Hpark : forall l q, q <> [] -> Forall (action_ok mm) (q ++ l) ->
               run_peer (mkPS inb None q false 0 true mgr) (map PSend l ++ [PConnect; POutOpen None]) =
               (mkPS inb (Some None) [] false 1 false mgr, [], flat_map (action_msgs mb mm) (q ++ l))).
-    { induction l as [|x l IH]; intros q Hq.
+    { induction l as [|x l IH]; intros q Hq Hok.
       - cbn [map app Model.run_peer Model.peer_step]. unfold conn_established, outbound_opened. simpl.
-        rewrite write_actions_healthy by exact Hmm. simpl.
+        rewrite app_nil_r in Hok. rewrite write_actions_healthy by exact Hok. simpl.
         rewrite !app_nil_r. reflexivity.
       - cbn [map app Model.run_peer Model.peer_step]. unfold send_action. cbn.
         unfold queue_action. cbn. destruct q as [|y q]; [congruence|]. cbn. unfold set_pend. cbn.
         change (y :: q ++ [x]) with ((y :: q) ++ [x]).
-        rewrite (IH ((y :: q) ++ [x])) by apply app_not_nil. rewrite <- app_assoc. reflexivity. }
+        rewrite (IH ((y :: q) ++ [x])); [|apply app_not_nil|rewrite <- app_assoc; exact Hok].
+        rewrite <- app_assoc. reflexivity. }
     cbn [map app Model.run_peer Model.peer_step]. unfold send_action. cbn.
     unfold queue_action, open_or_dial. simpl.
     assert (Em : (mgr =? 1) || (mgr =? 3) = true) by (destruct Hm as [-> | ->]; reflexivity).
-    rewrite Em. unfold set_dial, set_pend. simpl. rewrite (Hpark acts [a]) by discriminate. simpl.
+    rewrite Em. unfold set_dial, set_pend. simpl. rewrite (Hpark acts [a]) by (try discriminate; exact Hmm). simpl.
     repeat split; reflexivity.
   Qed.
 
@@ -1607,12 +1526,47 @@ Section NodeProofs.
       peer_step s PDialFail = (set_pend (set_dial s false) [], ([], ([], 0))).
   Proof. intros s H. cbn [Model.peer_step]. unfold dial_failed. rewrite H. reflexivity. Qed.
 
+  (* ---- a request the codec refuses ---- *)
+
+  (* The real control flow for a request whose one message is longer than the limit (OBSERVATION,
+     requests are outside the property text): send_request fails without writing; an established
+     substream is dropped for it and a new one requested; the commands given meanwhile queue up
+     behind the request; on the new substream the request is refused again and the loop drops the
+     substream together with the whole queue.  Nothing is written, nothing is reported. *)
+  Lemma oversized_request_drops_queue :
+    forall s c2 cids acts, mm < request_len cids ->
+      ps_pend s = [] -> ps_opening s = false -> ps_conn s = 1 ->
+      run_peer s (PSend (ARequest cids) :: map PSend acts ++ [POutOpen c2]) = (set_out s None, [], []).
+  Proof.
+    intros [inb out pend opening conn dial mgr] c2 cids acts Hbig Hp Hop Hc. cbn in *. subst.
+    assert (Hq : forall l q',
+              run_peer (mkPS inb None (ARequest cids :: q') true 1 dial mgr) (map PSend l ++ [POutOpen c2]) =
+              (mkPS inb None [] false 1 dial mgr, [], [])).
+    { induction l as [|x l IH]; intros q'.
+      - cbn [map app Model.run_peer Model.peer_step]. unfold outbound_opened.
+        cbn [ps_opening ps_pend]. cbn [write_actions]. rewrite oversized_request_refused by exact Hbig.
+        reflexivity.
+      - cbn [map app Model.run_peer Model.peer_step]. unfold send_action. cbn [ps_out].
+        unfold queue_action. cbn [ps_pend set_pend ps_inb ps_out ps_opening ps_conn ps_dial ps_mgr app].
+        unfold set_pend. cbn [ps_pend ps_inb ps_out ps_opening ps_conn ps_dial ps_mgr app].
+        rewrite IH. reflexivity. }
+    cbn [Model.run_peer Model.peer_step]. unfold send_action. cbn [ps_out].
+    destruct out as [c|].
+    - rewrite oversized_request_refused by exact Hbig.
+      unfold queue_action, open_or_dial, set_out, set_pend, set_opening.
+      cbn [ps_pend ps_inb ps_out ps_opening ps_conn ps_dial ps_mgr app]. change (1 =? 1) with true. cbv iota.
+      rewrite Hq. reflexivity.
+    - unfold queue_action, open_or_dial, set_out, set_pend, set_opening.
+      cbn [ps_pend ps_inb ps_out ps_opening ps_conn ps_dial ps_mgr app]. change (1 =? 1) with true. cbv iota.
+      rewrite Hq. reflexivity.
+  Qed.
+
   (* ---- a send that fails half-way is retried whole ---- *)
 
   (* the action is queued again as it was; what had been written before the failure is written
      again on the next substream (the receiver of both substreams sees those messages twice) *)
   Lemma failed_send_retried_whole :
-    forall s c a done part c', 2 <= mm ->
+    forall s c a done part c', action_ok mm a ->
       ps_out s = Some c -> ps_pend s = [] -> ps_conn s = 1 ->
       write_msgs mm c (action_msgs mb mm a) = (done, part, c', false) ->
       let '(s1, _, written) := run_peer s [PSend a; POutOpen None] in
